@@ -683,6 +683,11 @@ def check(ctx):
         tries += 1
         rng.choice(fns)()
     ctx.correspond("intv", cases, agree=agree, describe=lambda i: i["text"])
+    # the same interval programs as text through the unified pipeline model — once with the hand-written bodies, once with
+    # the bodies TRANSLATED from the Python source (Gen/Bodies.lean): status + exact display against the real execute()
+    import pipeline
+    texts = sorted({c[2]["text"] for c in cases if isinstance(c[2], dict) and isinstance(c[2].get("text"), str)})
+    pipeline.run(ctx, [t for t in texts[: ctx.n(2500, 25000)] if len(t) < 3000], label="run-c07", min_modelled=0.0, bodies=True)
 
 
 def run_corpus(ctx, real, rng, enclosure, wf, operand, cases):
@@ -729,3 +734,12 @@ LEVEL_TEXT = ("Machine-checked proof (Lean 4) over a model of Ka's interval code
 LEVEL_NOTE = ("Theorems are about the model; the model agrees with the code on the generated inputs only. Float results are "
               "compared with 1e-9 relative tolerance; IEEE rounding and libm monotonicity are not modelled.")
 TECHNIQUE = "Lean 4 proof over an arbitrary ordered field + instantiation at R + differential correspondence + sampling oracle"
+
+
+# ---- the interval function bodies TRANSLATED from /repo/src/ka/functions.py (translate/gen_bodies.py -> Gen/Bodies.lean) are
+# proved equal to the hand-written model bodies (Props/Bodies.lean); a changed Python body changes the generated definition
+# and the theorem of its descriptor stops checking
+import pipeline as _pl
+LEAN_MODULES = LEAN_MODULES + [m for m in _pl.BODIES_MODULES if m not in LEAN_MODULES]
+THEOREMS = THEOREMS + [t for t in _pl.bodies_theorems(("Interval", "BODIES_interval_", "BODIES_plusminus_", "BODIES_tol_")) if t not in THEOREMS]
+GEN = GEN + [g for g in _pl.GEN + _pl.BODIES_GEN if g not in GEN]
